@@ -1069,7 +1069,7 @@ def check_gen_determinism(prop, tier, seed, repo, keep):
         # 1. repeated fresh processes
         chosen = [s for s in sets if s['family'] in ('matrix', 'oneofs', 'maps', 'xpkg', 'wkt', 'regen', 'random', 'nest', 'opts', 'names', 'optional')]
         if tier == 'quick':
-            chosen = [s for s in chosen if s['name'] in ('matrix-w2', 'matrix-m1', 'oneofs', 'xpkg-all', 'xpkg-import-public', 'wkt', 'regen-regentestpb', 'regen-regentest3', 'nest', 'opts', 'names-var-collide', 'names-wrapper-vs-nested', 'optional3', 'names-fields-methods') or s['family'] == 'random']
+            chosen = [s for s in chosen if s['name'] in ('matrix-w2', 'matrix-m1', 'oneofs', 'xpkg-all', 'xpkg-import-public', 'xpkg-one-go-package', 'opts-declare', 'wkt', 'regen-regentestpb', 'regen-regentest3', 'nest', 'opts', 'names-var-collide', 'names-wrapper-vs-nested', 'optional3', 'names-fields-methods') or s['family'] == 'random']
         base = {}
         with cf.ThreadPoolExecutor(max_workers=NCPU) as ex:
             jobs = {}
